@@ -51,7 +51,7 @@ def _salt(prev_texts, sid, first):
     raise RuntimeError("no salt found for %r" % first)
 
 
-def make_shape(name, sizes, kinds=None, directives=None, rnd=None, p_ddl=0.25, checkpoints=(), salts=None, big=0, headers=None):
+def make_shape(name, sizes, kinds=None, directives=None, rnd=None, p_ddl=0.25, checkpoints=(), salts=None, big=0, headers=None, history=None, args=None):
     """sizes: statements per file. kinds: optional list of strings like "DII" (D = ddl, I = journal
     insert) per file; otherwise drawn from rnd (or all inserts). The very first statement of the first
     file always creates the journal table. directives: optional {file index (0-based): "none"|"file"}.
@@ -62,7 +62,10 @@ def make_shape(name, sizes, kinds=None, directives=None, rnd=None, p_ddl=0.25, c
     big: row count N of the kinds B (create table big), F (one INSERT..SELECT of N rows, far more pages than
     SQLite's 2 MB page cache) and U (one UPDATE of all rows of big).
     headers: {file index: (b, a)} - b ordinary comment lines before and a after the directive line(s) in the
-    file's header comment block (the documented form is the directive alone)."""
+    file's header comment block (the documented form is the directive alone).
+    history: indexes of the files that exist first and are applied completely (un-killed, default options) before
+    the other files are added to the directory; args: extra `migrate apply` arguments of the command under test
+    (e.g. --exec-order non-linear, needed when an added file is older than an applied one)."""
     files = []
     first = max(checkpoints) if checkpoints else 0
     for fi, n in enumerate(sizes):
@@ -108,6 +111,10 @@ def make_shape(name, sizes, kinds=None, directives=None, rnd=None, p_ddl=0.25, c
         if fi < first:
             files[-1]["skipped"] = True
     out = {"name": name, "files": files}
+    if history is not None:
+        out["history"] = list(history)
+    if args:
+        out["args"] = list(args)
     if big:
         out["big"] = big
     return out
@@ -126,10 +133,12 @@ def relaxed(shape, name):
                       checkpoints=[i for i, f in enumerate(shape["files"]) if f.get("checkpoint")])
 
 
-def shape_files(shape):
-    """file name -> content, as a user would write it."""
+def shape_files(shape, only=None):
+    """file name -> content, as a user would write it (only: restrict to these file indexes)."""
     out = {}
-    for f in shape["files"]:
+    for fi, f in enumerate(shape["files"]):
+        if only is not None and fi not in only:
+            continue
         txt = ""
         hb, ha = f.get("header") or (0, 0)
         for i in range(hb):
@@ -159,10 +168,12 @@ def _letter(s):
 
 
 def shape_sig(shape):
-    return "%s[%s]" % (shape["name"], ",".join(
+    return "%s[%s]%s" % (shape["name"], ",".join(
         ("^" if f.get("checkpoint") else "") + ("".join(_letter(s) for s in f["stmts"]) or "-") + (":" + f["directive"] if f.get("directive") else "")
         + ("#%d+%d" % tuple(f["header"]) if f.get("header") else "")
-        for f in shape["files"]))
+        for f in shape["files"]),
+        ("@applied-first(%s)" % ",".join(shape["files"][i]["version"] for i in shape["history"]) if "history" in shape else "")
+        + ("".join(" " + a for a in shape.get("args", []))))
 
 
 def eff_mode(glob, f):
@@ -555,6 +566,16 @@ def judge(case, steps):
         exp = expected_trace(shape, glob, prev)
         pend = pending_stmts(shape, prev)
         kill = step.get("kill")
+        if step["kind"] == "setup":
+            # building the history (a plain, un-killed apply of the first files): not under test, but it must work
+            if step["rc"] == 124:
+                vd.inconclusive.append("watchdog")
+                return vd
+            if step["rc"] != 0:
+                vd.v("apply-failed-without-crash|global=%s|dirs=%s|%s" % (glob, dirs_sig(shape, glob), err_class(step["stderr"])),
+                     "applying the first files of the history (no kill) exits %d: %s" % (step["rc"], (step["stderr"] or "").strip()[-300:]))
+                return vd
+            continue
         if cur["corrupt"] and step["rc"] != 124:
             vd.v("database-unreadable|global=%s|after=%s" % (glob, "kill" if step["kind"] in ("kill", "prefix") else step["kind"]),
                  "an independent SQLite client cannot read the database after the %s step (%s, exit %s): %s"
